@@ -464,6 +464,10 @@ func c11FileAbstract(f map[string]any) map[string]any {
 		}
 	}
 	out["elems"] = elems
+	out["selfRef"] = nil
+	if view == "pathItem" && jstr(root, "ref") != "" {
+		out["selfRef"] = n["r"] // the file is {"$ref": …}
+	}
 	hasSchema, hasContent := false, false
 	for _, k := range jlist(root["kids"]) {
 		if sl := slotOf(k); len(sl) > 0 {
@@ -836,7 +840,9 @@ func c11Resolve(base string, ref string) string {
 }
 
 var c11Dirs = []string{"", "./", "../b/", "../a/", "sub/", "/r/b/", "/r/a/", "file:///r/b/", "http://h.example/r/a/", "https://h.example/r/a/", "//h.example/r/b/",
-	"../../r/a/", "../../../etc/", "http://other.example/"}
+	"../../r/a/", "../../../etc/", "http://other.example/",
+	// names that URL-escaping changes: percent-escape, raw space, non-ASCII, '+' and an escaped '+' — relative (they go through join) and absolute
+	"shared%20defs/", "sp ace/", "d\u00e9f/", "a+b%2Bc/", "../b/sh%20x/", "http://h.example/r/a/sh%20x/", "/r/b/sp%20ace/"}
 
 func (u *c11Uni) refText(kind string, base string, depth int) string {
 	r := u.r
@@ -972,6 +978,14 @@ func (u *c11Uni) docOrElem(view string, loc string, depth int) c11El {
 	pref := 30
 	if depth > 2 {
 		pref = 15
+	}
+	if view == "pathItem" && depth < 4 && u.r.Chance(12) {
+		// a path-item file that is itself a reference (376b90f)
+		if t := u.refText("pathItem", loc, depth+1); t != "" {
+			if _, ok := c11RefJSON(t); ok {
+				return c11NewEl("pathItem", t)
+			}
+		}
 	}
 	if view != "doc" {
 		// the element itself is inline; its sub-elements may be references
@@ -1240,6 +1254,12 @@ func c11Handmade() map[string]hx.Case {
 		c11Doc("/r/a/b/d.json", kid(c11NewEl("pathItem", "sub/pi.json"), "paths", "/x")),
 		c11Elem("/r/a/b/sub/pi.json", "pathItem", kid(c11NewEl("parameter", "p.json"), "parameters", "0")),
 		c11Elem("/r/a/b/sub/p.json", "parameter"), c11Elem("/r/a/p.json", "parameter"), c11Elem("/r/a/b/p.json", "parameter"))
+	// 376b90f: a whole-file path item whose file is itself a reference: one more read, against the loaded file's location
+	out["pathitem_file_is_ref"] = mk(true, "file",
+		c11Doc("/r/a/root.json", kid(c11NewEl("pathItem", "b/p1.json"), "paths", "/x")),
+		map[string]any{"loc": "/r/a/b/p1.json", "view": "pathItem", "root": c11NewEl("pathItem", "sub/p2.json")},
+		c11Elem("/r/a/b/sub/p2.json", "pathItem", kid(c11NewEl("parameter", "p.json"), "parameters", "0")),
+		c11Elem("/r/a/b/sub/p.json", "parameter"), c11Elem("/r/a/b/p.json", "parameter"), c11Elem("/r/a/sub/p2.json", "pathItem"))
 	// f972c33: the raw re-read after a failed typed drill reads the REFERENCED document (twice in the log), not the referring one
 	out["reread_referenced_document_dangling"] = mk(true, "file",
 		c11Doc("/r/a/root.json", kid(c11NewEl("schema", "../b/d.json#/components/schemas/Nope"), "components", "schemas", "A"),
@@ -1301,6 +1321,9 @@ func genC11(ctx *hx.Ctx, emit func(hx.Case)) {
 		{"../../../etc/", "/etc/", false}, {"gone/", "", false},
 		{"", "/r/a/", true}, {"../b/", "/r/b/", true}, {"https://h.example/r/a/", "https://h.example/r/a/", true}, {"//h.example/r/a/", "//h.example/r/a/", true},
 		{"/r/b/", "/r/b/", true}, {"gone/", "", true},
+		// reference texts whose path URL-escaping changes (the location read must hold the DECODED path, as net/url resolves it)
+		{"shared%20defs/", "/r/a/shared%20defs/", false}, {"sp ace/", "/r/a/sp%20ace/", true}, {"d\u00e9f/", "/r/a/d%C3%A9f/", false},
+		{"a+b%2Bc/", "/r/a/a+b%2Bc/", true}, {"../b/sh%20x/", "/r/b/sh%20x/", true}, {"sub/d\u00e9 f/", "/r/a/sub/d%C3%A9%20f/", false},
 	}
 	entries := []string{"file", "dataWithPath", "data"}
 	for pi, p := range pos {
@@ -1308,7 +1331,7 @@ func genC11(ctx *hx.Ctx, emit func(hx.Case)) {
 		for si, sp := range spellings {
 			for ei, entry := range entries {
 				for _, allowed := range []bool{false, true} {
-					if !ctx.Thorough() && (pi+si+ei)%4 != 0 && !(allowed == false && sp.fragment && si >= 12) {
+					if !ctx.Thorough() && (pi+si+ei)%4 != 0 && !(allowed == false && sp.fragment && si >= 12 && si < 16) {
 						continue // quick tier: a quarter of the grid (all of the remote fragment spellings with the switch off)
 					}
 					root := c11_deepCopy(skel).(map[string]any)
@@ -1420,7 +1443,8 @@ func c11GenChains(ctx *hx.Ctx, emit func(hx.Case)) {
 
 // c11GenRootChains: the same inside the root document: /x → "#/paths/~1y", /y → a reference (sorts later)
 func c11GenRootChains(ctx *hx.Ctx, emit func(hx.Case)) {
-	for _, sec := range []string{"pi.json", "../b/pi.json", "../b/e.json#/paths/~1y", "http://h.example/r/a/pi.json", "#/paths/~1x", "#/paths/~1z", "gone/pi.json"} {
+	for _, sec := range []string{"pi.json", "../b/pi.json", "../b/e.json#/paths/~1y", "http://h.example/r/a/pi.json", "#/paths/~1x", "#/paths/~1z", "gone/pi.json",
+		"pr.json", "../b/pr.json", "prr.json", "prh.json"} {
 		for _, entry := range []string{"file", "dataWithPath", "data"} {
 			for _, allowed := range []bool{false, true} {
 				files := []any{c11Doc("/r/a/root.json", kid(c11NewEl("pathItem", "#/paths/~1y"), "paths", "/x"), kid(c11NewEl("pathItem", sec), "paths", "/y"),
@@ -1428,6 +1452,13 @@ func c11GenRootChains(ctx *hx.Ctx, emit func(hx.Case)) {
 				for _, loc := range []string{"/r/a/pi.json", "/r/b/pi.json", "http://h.example/r/a/pi.json", "pi.json", "../b/pi.json"} {
 					files = append(files, c11Elem(loc, "pathItem", kid(c11NewEl("parameter", "p.json"), "parameters", "0")), c11Elem(c11Resolve(loc, "p.json"), "parameter"))
 				}
+				// path-item files that are themselves references: to a file in a sub-directory, to themselves, to a fragment
+				for _, dir := range []string{"/r/a/", "/r/b/", "", "../b/"} {
+					files = append(files, map[string]any{"loc": dir + "pr.json", "view": "pathItem", "root": c11NewEl("pathItem", "sub/p2.json")},
+						c11Elem(dir+"sub/p2.json", "pathItem", kid(c11NewEl("parameter", "p.json"), "parameters", "0")), c11Elem(dir+"sub/p.json", "parameter"))
+				}
+				files = append(files, map[string]any{"loc": "/r/a/prr.json", "view": "pathItem", "root": c11NewEl("pathItem", "prr.json")},
+					map[string]any{"loc": "/r/a/prh.json", "view": "pathItem", "root": c11NewEl("pathItem", "../b/e.json#/paths/~1y")})
 				for _, loc := range []string{"/r/b/e.json", "../b/e.json"} {
 					files = append(files, c11Doc(loc, kid(c11With(c11NewEl("pathItem", ""), kid(c11NewEl("parameter", "q.json"), "parameters", "0")), "paths", "/y")),
 						c11Elem(c11Resolve(loc, "q.json"), "parameter"))
